@@ -88,7 +88,7 @@ def harness(E):
     P = E.params
     L = P["pools"][E.choose("pool", len(P["pools"]))]
     shape = [len(x) for x in L]
-    pool = plain_pool(E, shape, L)
+    pool = plain_pool(E, shape, L, sparse=P.get("sparse", False))
     backend = P["backends"][E.choose("backend", len(P["backends"]))]
     t = open_index(E, backend, default_webentity_creation_rule=NEVER, webentity_creation_rules={})
     ref = Ref()
